@@ -366,6 +366,31 @@ func c12Value(c *Ctx, cfg *GenCfg) (T, ap.Item) {
 		plantCapacity(it)
 		return tr, it
 	}
+	// a collection whose first/last/current page is embedded by pointer, the page naming its parent by an embedded
+	// object (a cached collection as a server holds it)
+	if c.R.Chance(6) {
+		kinds := []string{"Collection", "OrderedCollection", "CollectionPage", "OrderedCollectionPage"}
+		k := kinds[c.R.Intn(len(kinds))]
+		pageKind := "CollectionPage"
+		if strings.HasPrefix(k, "Ordered") {
+			pageKind = "OrderedCollectionPage"
+		}
+		parent := T{"t": "Collection", "ptr": true, "f": T{"ID": T{"s": cfg.nextID("parent")}, "Type": T{"s": "Collection"}, "Name": T{"nlv": []interface{}{[]interface{}{"en", "the parent"}}}}}
+		page := func() T {
+			return T{"t": pageKind, "ptr": true, "f": T{"ID": T{"s": cfg.nextID("page")}, "Type": T{"s": pageKind}, "PartOf": cloneTree(parent),
+				"Next": T{"t": pageKind, "ptr": true, "f": T{"ID": T{"s": cfg.nextID("next")}, "Type": T{"s": pageKind}, "PartOf": cloneTree(parent)}}}}
+		}
+		f := T{"ID": T{"s": cfg.nextID("cached")}, "Type": T{"s": k}}
+		for _, name := range []string{"First", "Last", "Current"} {
+			if c.R.Chance(70) {
+				f[name] = page()
+			}
+		}
+		tr := T{"t": k, "ptr": true, "f": f}
+		it := buildItem(tr)
+		plantCapacity(it)
+		return tr, it
+	}
 	typ := allGoTypes[c.R.Intn(len(allGoTypes))]
 	tr := cfg.genNode(c.R, typ, cfg.MaxDepth, false)
 	tr["ptr"] = true
